@@ -11,6 +11,18 @@ var (
 		Text: "per VM arm (abstract interpretation of ip relative to the opcode byte): every operand byte read belongs to a whole operand and is combined with the shift MakeInstruction wrote it at; every operand is decoded; every fall-through path advances ip by exactly the operand widths; MakeInstruction/ReadOperands are big-endian inverses"}
 	rCODEC5 = &Rule{Name: "CODEC.5", Floor: 8, Fn: ruleCODEC5,
 		Text: "opcode classes extracted from the VM arms (jump / constant-index / never-fall-through) equal the sets hard-coded in optimizeFunc and updateConstIndexes; jump arms set ip = target-1"}
+	rIMM1 = &Rule{Name: "IMM.1", Floor: 3, Fn: ruleIMM1,
+		Text: "immutable container types declare no IndexSet: their method set resolves IndexSet to ObjectImpl's, which returns ErrNotIndexAssignable"}
+	rIMM2 = &Rule{Name: "IMM.2", Floor: 40, Fn: ruleIMM2,
+		Text: "SSA value-origin over all packages: the storage (Value slice/map) of an existing immutable container never becomes the storage of a mutable container (directly, sliced, or via append arg 0), is never the target of an element write/delete/copy (also through callees and holder fields), and an immutable container's Value field is only assigned on an object allocated in the same function"}
+	rIMM3 = &Rule{Name: "IMM.3", Floor: 5, Fn: ruleIMM3,
+		Text: "in the function registered as builtin `freeze` and its static callees every immutable container is built on storage made in that function, and no write goes through storage of an existing container"}
+	rIMM4 = &Rule{Name: "IMM.4", Floor: 6, Fn: ruleIMM4,
+		Text: "producers: OpImmutable only re-wraps its mutable twin; the export arm emits OpImmutable immediately before OpReturn on every path; BuiltinModule.Import returns AsImmutableMap, which copies every attribute into a fresh map"}
+	rFRESH = &Rule{Name: "FRESH", Floor: 4, Fn: ruleFRESH,
+		Text: "FRESH.1: the result container of a BinaryOp never takes storage that may alias an operand's backing array (append(operand.Value, …)); FRESH.2: BinaryOp of an index-assignable container never returns its receiver"}
+	rCOPY1 = &Rule{Name: "COPY.1", Floor: 12, Fn: ruleCOPY1,
+		Text: "Copy of every container builds fresh storage, never returns the receiver, and stores only elem.Copy() results"}
 )
 
 func allProperties() []*Property {
@@ -18,10 +30,26 @@ func allProperties() []*Property {
 		{ID: "C01",
 			Decided:    "compiler, generic codec, opcode tables and every VM arm agree byte for byte on the instruction format.",
 			NotDecided: "the language semantics themselves (values computed by operators, control flow, scoping, builtins).",
-			Rules:      []*Rule{rCODEC1, rCODEC2, rCODEC3}},
+			Rules:      []*Rule{rCODEC1, rCODEC2, rCODEC3, rFRESH}},
 		{ID: "C02",
 			Decided:    "instruction format agreement; opcode-class agreement.",
 			NotDecided: "stack balance and jump well-formedness for all compiled programs.",
 			Rules:      []*Rule{rCODEC1, rCODEC2, rCODEC3, rCODEC5}},
+		{ID: "C03",
+			Decided:    "the optimizer's notion of jump / terminator is the VM's (opcode classes extracted from the VM arms).",
+			NotDecided: "equivalence of optimised and unoptimised code for all programs.",
+			Rules:      []*Rule{rCODEC5}},
+		{ID: "C09",
+			Decided:    "no route from the storage of an immutable array/map to a write or to a mutable owner, in any function of any package (ownership rule on two fields).",
+			NotDecided: "immutability broken by embedder code or unsafe/reflect (neither occurs in the tree).",
+			Rules:      []*Rule{rIMM1, rIMM2, rIMM3, rIMM4, rCOPY1}},
+		{ID: "C10",
+			Decided:    "Copy is deep and fresh for every container.",
+			NotDecided: "arithmetic results; NaN/±0 laws as numeric facts.",
+			Rules:      []*Rule{rCOPY1}},
+		{ID: "C12",
+			Decided:    "constant re-indexing covers exactly the opcodes through which the VM reads the constant pool, with the operand layout of the tables.",
+			NotDecided: "behavioural equality after de-duplication / gob round trip.",
+			Rules:      []*Rule{rCODEC5}},
 	}
 }
